@@ -20,6 +20,17 @@ open BHS.Chain
     in the `else` branch of `New`), set this to `true`; nothing else in the model changes. -/
 def f4aFixed : Bool := false
 
+/-- THE F4b SWITCH. Peer.PushGetHeadersMsg drops a request that equals the previous one even when that one has long been
+    answered, so after a completed sync (last request getheaders(locator(tip), 0), answered empty) an inv of a new block
+    produces nothing (finding C06-F4b). Suggested repair: peer.go inHandler, `case *wire.MsgHeaders:` clears
+    prevGetHdrsBegin / prevGetHdrsStop before the listener runs. When /repo is repaired that way, set this to `true`. -/
+def f4bFixed : Bool := false
+
+/-- THE F4d SWITCH. handleCheckSyncPeer keeps the sync peer only when topBlock() == tip height; once the service is
+    ahead of what the peer advertised, the stale tick disconnects it (finding C06-F4d). Suggested repair:
+    `if sm.topBlock() <= best.Height`. When /repo is repaired that way, set this to `true`. -/
+def f4dFixed : Bool := false
+
 /-- what the manager and the peer object know about one peer -/
 structure PeerSt (H : Type) where
   id : Nat
@@ -188,8 +199,15 @@ def headersLoop (ccfg : Chain.Cfg H) (nextCp : Option (Nat × H)) :
         else headersLoop ccfg nextCp (add ccfg s x).1 xs rc fh'
       | none => headersLoop ccfg nextCp (add ccfg s x).1 xs rc fh'
 
+/-- the peer object after its inHandler has read a headers message (repaired code: the duplicate filter is cleared) -/
+def headersSeen (q : PeerSt H) : PeerSt H :=
+  if f4bFixed then { q with prevBegin := none, prevStop := none } else q
+
+def onHeadersReceived (ps : List (PeerSt H)) (p : Nat) : List (PeerSt H) :=
+  ps.map (fun q => if q.id == p then headersSeen q else q)
+
 /-- handleHeadersMsg -/
-def handleHeaders (cfg : Cfg H) (st : State H) (p : Nat) (hs : List (Src H)) : State H × List (Action H) :=
+def handleHeadersCore (cfg : Cfg H) (st : State H) (p : Nat) (hs : List (Src H)) : State H × List (Action H) :=
   match lookup st.peers p with
   | none => (st, [])
   | some q =>
@@ -220,6 +238,10 @@ def handleHeaders (cfg : Cfg H) (st : State H) (p : Nat) (hs : List (Src H)) : S
             match st1.nextCp with
             | none => pushTo st1 p (locator st1.store) cfg.zero
             | some c => pushTo st1 p (locator st1.store) c.2
+
+/-- a headers message from peer p: peer.go's inHandler first, then the manager's handleHeadersMsg -/
+def handleHeaders (cfg : Cfg H) (st : State H) (p : Nat) (hs : List (Src H)) : State H × List (Action H) :=
+  handleHeadersCore cfg { st with peers := onHeadersReceived st.peers p } p hs
 
 /-- HeaderService.IsCurrent; `none` = index out of range on an empty checkpoint list -/
 def isCurrentHS (cfg : Cfg H) (s : Store H) : Option Bool :=
@@ -274,6 +296,11 @@ def handleInv (cfg : Cfg H) (st : State H) (p : Nat) (invs : List (Bool × H)) :
                 else pushTo st p (locator st.store) cfg.zero
         else (st, [])
 
+/-- "Don't update sync peers if you have all the available blocks": topBlock() against the tip height -/
+def exhausted (q : PeerSt H) (bestHeight : Nat) : Bool :=
+  if f4dFixed then decide (max q.lastBlock q.startHeight ≤ (bestHeight : Int))
+  else decide (max q.lastBlock q.startHeight = (bestHeight : Int))
+
 /-- handleCheckSyncPeer; `stale` = three speed violations or more than maxLastBlockTime since lastBlockTime -/
 def tick (cfg : Cfg H) (st : State H) (stale : Bool) (pick : Nat) : State H × List (Action H) :=
   match st.syncPeer with
@@ -283,7 +310,7 @@ def tick (cfg : Cfg H) (st : State H) (stale : Bool) (pick : Nat) : State H × L
     else
       match getTip st.store, lookup st.peers sp with
       | some best, some q =>
-        if max q.lastBlock q.startHeight = (best.height : Int) then (st, [])
+        if exhausted q best.height then (st, [])
         else if !q.inMap then (st, [])
         else updateSyncPeer cfg st pick
       | _, _ => (st, [.panic])
